@@ -91,6 +91,21 @@ CHECKS = {
             "Generated-input search with sampled schedules: workload items on both sides of every concurrency threshold (FFT variants, power series, batch inversion, add_in_place, mul_acc, transpose_slice, Merkle trees, segmented RowMatrix LDE + row commitments for 1..255 columns, FRI apply_drp + hash_values, whole GenAir proofs with constraint-evaluation domains on both sides of 8192 rows) are computed by the serial build and by the concurrent build inside rayon pools of 1,2,3,4,5,7,8,12,16,24,32,48,64 threads, 2-3 repetitions each; digests of all deterministic outputs (for proofs: context, trace/constraint/FRI commitments, OOD frame; both proofs must verify) must be bit-identical; nonce and query data are exempt.",
             "Rayon's scheduler cannot be controlled: interleavings are sampled (pool sizes x repetitions), not enumerated; a divergence needing a rare interleaving can be missed. TSan is not used (crossbeam's fence-based synchronisation yields false reports).",
             "DESIGN.md 3/C14"),
+    "C10": ("exploration", "vf-crypto",
+            "property-based testing: enumerated and proptest-sampled openings against a naive materialised Merkle tree; mutation (fault) enumeration of openings",
+            "Positive direction exhaustive (quick: 3 hashers at depth 1..4 and 3 at depth 1..3; thorough: all 6 at depth 1..4): every non-empty position subset, sorted and shuffled orders, distinct and all-equal leaves: prove/verify, prove_batch/verify_batch, get_root = naive root, into_paths = naive paths, from_paths(into_paths) = prove_batch. Depth 5..12 sampled with subset sizes 1..255 (adjacent runs, sibling pairs, all-left, one per subtree, uniform). Negative direction: fault enumeration of 25 batch and 14 single-path mutation kinds (leaf/node/position/depth values, dropped/added nodes, vectors and leaves, duplicate/out-of-range/huge positions, wrong depths incl. 0 and >= 64) at every place they apply, exhaustive for depth 1..3 (and depth 4 in thorough); Ok is accepted only when every claimed (position, leaf) is committed and the shape is unchanged; never a panic.",
+            "The hash functions are black boxes here (C11). Two open known findings (internal nodes accepted as leaves of a shallower tree: depth is not bound into the root; design-level).",
+            "DESIGN.md 3/C10"),
+    "C11": ("exploration", "vf-crypto",
+            "differential property-based testing against reference hashers (vf-ref); enumerated lengths and boundary limb assignments; algebraic laws",
+            "Generated-input search against independent references: blake3/sha3 crates over canonical little-endian bytes; textbook Rescue Prime / Jive over integer residues with the published tables, validated at start-up against the published permutation vectors. Covered: every byte length 0..200 and around k*7*rate, random contents to 400 bytes, element lists of every length 0..40 in base, quadratic and cubic typing with non-canonical internal images (must depend on residues only), merge = hash of concatenation, merge_with_int over 23 integer classes (injectivity), every two-class assignment of boundary limbs {0, 2^32-1, 2^32, p-1, ...} over all position masks for apply_round / apply_permutation, limbs solved to land an MDS product in the lazy-reduction window, determinism, hash(x) != hash(x||0), totality.",
+            "RpJive64_256's padding of a partial last block (overwrites instead of adds) is pinned as observed because the documentation does not decide it. Rp62_248's permutation internals are private and covered through apply_round / hash_elements / merge only.",
+            "DESIGN.md 3/C11"),
+    "C19": ("exploration", "vf-crypto",
+            "stateful property-based testing (model-based) against a reference coin built on the reference hashers, plus metamorphic history perturbation",
+            "Generated-input search over histories of 1..30 operations (new / reseed / draw base, quadratic, cubic / draw_integers with count 1..255 below 2^1..2^32 / check_leading_zeros / the prover's grinding loop / requests documented to panic) on 12 hasher x field coins: two real coins (given representation vs canonical rebuild) and a reference coin are compared after every step (determinism, reference agreement, canonical serialisable elements, exactly count integers below the domain, proof-of-work measure), and up to four minimally different histories (seed element +1, reseed bit, nonce +-1, one extra draw) must change the next four base draws.",
+            "The proof-of-work measure is modelled as implemented (trailing zeros of the first 8 bytes read little-endian), which differs from the wording of the doc comment. The extra-draw perturbation is asserted when the extra draw directly precedes the observed draws (rejection sampling can legitimately re-synchronise otherwise; counted as a label). FailedToDrawFieldElement accepted for cubic f62 only.",
+            "DESIGN.md 3/C19"),
 }
 
 NOT_YET = {
